@@ -189,6 +189,14 @@ def run(model: Model, rep: Report) -> None:
 
     # ---------------------------------------------------------------- R5
     _shapes(model, rep)
+    # colour spaces named by one resource dictionary must not outlive it: the interpreter's table is its own copy
+    ir = model.func("pdfminer.pdfinterp.PDFPageInterpreter.init_resources")
+    v = [unparse(n.value) for n in walk_no_nested(ir.node) if isinstance(n, (ast.Assign, ast.AnnAssign)) and unparse(n.targets[0] if isinstance(n, ast.Assign) else n.target) == "self.csmap"]
+    r8 = rep.rule("C16-R8", "ALIAS", "the colour-space table consulted by cs/CS/sc/scn is a per-interpreter copy of the predefined table", 1)
+    r8.check(len(v) == 1 and v[0] in ("PREDEFINED_COLORSPACE.copy()", "dict(PREDEFINED_COLORSPACE)", "{**PREDEFINED_COLORSPACE}"), site(ir), ir.qualname, "self.csmap = PREDEFINED_COLORSPACE.copy()", why=f"self.csmap = {v}: names bound by one page's or form's /ColorSpace resources are written into the shared table, so a later `cs` with that name sees another stream's colour space (and component count)")
+    from .interp import optional_number_truth_rule
+
+    optional_number_truth_rule(model, rep, "C16-R7", [f for q, f in sorted(model.funcs.items()) if q.startswith("pdfminer.pdfinterp.PDFPageInterpreter.do_")], 8)
 
     # ---------------------------------------------------------------- R6
     r6 = rep.rule("C16-R6", "COPYFIELDS", "q saves every piece of graphics state that the state operators write", 3)
